@@ -71,6 +71,7 @@ type e2eCase struct {
 	Traffic         bool     `json:"traffic"` // besides the solicitations: a foreign RA with the M flag flipped (and one with hop limit 64) on advertising interfaces; an RA, its hop-limit-64 copy and an RS on monitoring interfaces; /metrics is read again afterwards
 	Unspec          bool     `json:"unspec"`  // with Traffic: a solicitation from :: as well; the second scrape waits for the multicast RA that answers it (3 s after the initial RA)
 	Flip            bool     `json:"flip"`    // the forwarding state of every interface is inverted once the process is up; API and /metrics are read again, and a solicitation 1.2 s after start is answered with the new state
+	Overlap         bool     `json:"overlap"` // forwarding reads take 2 ms and /metrics is requested three times at once
 }
 
 type e2eProbe struct {
@@ -88,6 +89,7 @@ type e2eRun struct {
 	Notes                     []string
 	Probes                    []e2eProbe
 	Metrics, Metrics2         e2eProbe
+	MetricsPar                []e2eProbe // three requests served at the same time
 	FlipAt                    time.Time
 	FlipProbe, FlipMetrics    e2eProbe
 	ReadyNote                 bool   // READY=1 seen before the signal was sent
@@ -207,6 +209,9 @@ func e2eExecute(c e2eCase, cfg rConfig) (*e2eRun, error) {
 		w.Ifaces[ri.Name] = vi
 	}
 	w.Routes = c.State.Routes
+	if c.Overlap {
+		w.StateDelayMS = 2
+	}
 	run.World = w
 	wb, _ := json.Marshal(w)
 	if err := os.WriteFile(filepath.Join(dir, "world.json"), wb, 0o644); err != nil {
@@ -414,6 +419,19 @@ func e2eExecute(c e2eCase, cfg rConfig) (*e2eRun, error) {
 	if wantReady {
 		run.Probes = append(run.Probes, get("/_/api/interfaces"))
 		run.Metrics = get("/metrics")
+		if c.Overlap && c.Prom {
+			var wg sync.WaitGroup
+			run.MetricsPar = make([]e2eProbe, 3)
+			for gi := range run.MetricsPar {
+				wg.Add(1)
+				go func() {
+					defer wg.Done()
+					time.Sleep(time.Duration(gi) * time.Millisecond)
+					run.MetricsPar[gi] = get("/metrics")
+				}()
+			}
+			wg.Wait()
+		}
 		if c.Flip {
 			for i, ri := range cfg.Interfaces {
 				v := "1"
@@ -1632,6 +1650,27 @@ func e2eMetrics(c e2eCase, run *e2eRun, pfx string) error {
 			}
 		}
 	}
+	for pi, par := range run.MetricsPar {
+		if par.Status == 0 {
+			continue
+		}
+		if par.Status != 200 {
+			return verifkit.Violf(pfx+"/overlapping-scrape-fails", "request %d of three simultaneous GET /metrics -> %d", pi, par.Status)
+		}
+		pg := e2eParseProm(par.Body, order)
+		for name := range order {
+			for key := range want[name] {
+				if _, ok := pg[name][key]; !ok {
+					return verifkit.Violf(pfx+"/overlapping-scrape-incomplete", "request %d of three simultaneous GET /metrics lacks the sample %s{%s}", pi, name, key)
+				}
+			}
+			for key := range pg[name] {
+				if _, ok := want[name][key]; !ok {
+					return verifkit.Violf(pfx+"/overlapping-scrape-incomplete", "request %d of three simultaneous GET /metrics has an unexpected sample %s{%s}", pi, name, key)
+				}
+			}
+		}
+	}
 	for name := range order {
 		for key, rs := range want[name] {
 			v, ok := got[name][key]
@@ -1665,6 +1704,7 @@ func e2eGenMode(forC16, forC10 bool) func(t *rapid.T) e2eCase {
 			Sig: rapid.SampledFrom([]string{"TERM", "INT", "HUP", "TERM", "HUP"}).Draw(t, "sig"), Solicit: rapid.Bool().Draw(t, "solicit"),
 			WaitMS: rapid.SampledFrom([]int{0, 0, 50, 300, 1200}).Draw(t, "wait"), Prom: rapid.IntRange(0, 3).Draw(t, "prom") != 0}
 		c.State.AddrErr, c.State.RouteErr, c.State.NowNS = false, false, 0
+		c.Overlap = rapid.IntRange(0, 2).Draw(t, "overlap") == 0
 		if forC16 {
 			// short deprecated lifetimes on the first prefix / route stanza of every interface, and time to see them count down
 			c.WaitMS = rapid.SampledFrom([]int{1100, 2100}).Draw(t, "c16wait")
